@@ -308,6 +308,7 @@ class Vis:
         self.above, self.below = g["cv_lists"]  # (the lists as returned: immutable values)
         self.na, self.nb = Q.seq_len(self.above), Q.seq_len(self.below)
         self.A, self.B = Q.seq_cpsum(self.above, 2), Q.seq_cpsum(self.below, 2)
+        self.ma, self.mb = g["cv_item_index"]  # chain index of listed item j above / below (known where instantiated)
         # lemma chain-rows-monotone, instantiated: the outermost listed items exist (they are not beyond the items walked)
         self.ch.mono(UP, self.kt, self.ka)
         self.ch.mono(DOWN, self.kl, self.kb)
@@ -370,10 +371,13 @@ def _updown_on_raise(old, s, a, exc):
         yield "walker-refused-a-position-it-reported-nothing-moved", both(same_scroll_state(s, old), walker_focus(s, "now")[1] == walker_focus(old, "entry")[1])
 
 
-def _updown_summary(old, s, a, result):
-    """What a caller (keypress, mouse_event) is told -- the last clauses of the verified postcondition."""
+def _updown_summary(old, s, a, result, d, K):
+    """What a caller (keypress, mouse_event) is told -- the last clauses of the verified postcondition.  K: how many steps
+    up (d = UP) / down (d = DOWN) the walker's chain the focus has moved."""
     now = walker_focus(s, "exit")
     was = walker_focus(old, "entry")
+    ch = Vis().ch
+    yield ("the-focus-stays-or-moves-up-the-list" if d == UP else "the-focus-stays-or-moves-down-the-list"), both(K >= 0, ch.ok(d, K), now[1] == ch.pos(d, K), implies(V.opt_eq(result, True), K == 0))
     yield "still-a-focus", neg(mk_bool(now[0].isnone))
     yield "unhandled-nothing-changed", implies(V.opt_eq(result, True), both(same_scroll_state(s, old), V.opt_eq(s.pref_col, old.pref_col), now[1] == was[1], V.opt_eq(now[0], was[0])))
     # (a focus widget without rows has no row to show: 'up' in a 1-row box can hand the focus to a 0-row widget fetched from
@@ -382,15 +386,22 @@ def _updown_summary(old, s, a, result):
     yield "handled-scroll-state-sane-focus-row-inside-the-box-unless-nothing-changed", implies(V.opt_isnone(result), both(lb_ok(s), either(s.offset_rows < a.size[1], same_scroll_state(s, old), no_rows)))
 
 
-def _updown_effects(old, s, a, result):
-    st = cur()
-    st.ghost["updown_before"] = walker_focus(s)
-    PROTOCOLS["ListWalker"].bump(st, s._body)
+def _updown_effects(d):
+    def effects(old, s, a, result):
+        st = cur()
+        st.ghost["updown_before"] = walker_focus(s)
+        st.ghost["updown_K"] = (Chain(s, a.size[0]), d, st.fresh_int("K"))  # the chain the focus moves along, as it is before the move
+        st.ghost.setdefault("ran", []).append(("cursor up", "cursor down")[d])
+        PROTOCOLS["ListWalker"].bump(st, s._body)
+
+    return effects
 
 
 def _updown_ensures_callee(old, s, a, result):
     was = cur().ghost["updown_before"]
+    ch, d, K = cur().ghost["updown_K"]
     now = walker_focus(s)
+    yield "the-focus-stays-or-moves-along-the-list-in-the-direction-of-the-key", both(K >= 0, ch.ok(d, K), now[1] == ch.pos(d, K), implies(V.opt_eq(result, True), K == 0))
     yield "handled-or-not", either(V.opt_isnone(result), V.opt_eq(result, True))
     yield "still-a-focus", neg(mk_bool(now[0].isnone))
     yield "unhandled-nothing-changed", implies(V.opt_eq(result, True), both(same_scroll_state(s, old), V.opt_eq(s.pref_col, old.pref_col), now[1] == was[1], V.opt_eq(now[0], was[0])))
@@ -435,13 +446,13 @@ class lb_keypress_up:
     }
 
     requires = staticmethod(_up_requires)
-    effects = staticmethod(lambda old, s, a, result: _updown_effects(old, s, a, result))
+    effects = staticmethod(lambda old, s, a, result: _updown_effects(UP)(old, s, a, result))
     ensures_callee = staticmethod(lambda old, s, a, result: _updown_ensures_callee(old, s, a, result))
     on_raise_callee = staticmethod(lambda old, s, a, exc: _updown_on_raise_callee(old, s, a, exc))
 
     def ensures(old, s, a, result):
         yield from lb_keypress_up.outcomes(old, s, a, result)
-        yield from _updown_summary(old, s, a, result)
+        yield from _updown_summary(old, s, a, result, UP, cur().ghost["moved_K"])
 
     @staticmethod
     def outcomes(old, s, a, result):
@@ -461,6 +472,7 @@ class lb_keypress_up:
             w, p, r = Q.seq_get(vis.above, i)
             tw, rows = widget_at(old._body, 0, p), rows_of(widget_at(old._body, 0, p), maxcol, True)
             final = snapped(vis.off - vis.A(i + 1), "below", True, rows, maxrow, maxrow - 1)
+            st.ghost["moved_K"] = vis.ma(i)
             yield "nearest-listed-selectable-item-with-rows-takes-the-focus", both(V.opt_isnone(result), vis.cand(vis.above, i), implies(both(0 <= q, q < i), neg(vis.cand(vis.above, q))),
                                                                                    now[1] == p, eq(val(now[0]), w))
             yield "where-it-is-pulled-into-the-box", stored_as(s, final, rows)
@@ -474,8 +486,10 @@ class lb_keypress_up:
             K = vis.kt + m + 1
             ch.unfold(UP, K - 1)
             if not is_none(result):
+                st.ghost["moved_K"] = 0
                 yield "comes-back-only-at-the-top-of-the-list-nothing-changed", both(V.opt_eq(result, True), vis.tt == 0, neg(ch.ok(UP, K)), unchanged)
                 return
+            st.ghost["moved_K"] = K
             tw = ch.widget(UP, K)
             rows = rows_of(tw, maxcol, True)
             final = snapped(1 - rows, "below", True, rows, maxrow, maxrow - 1)
@@ -513,6 +527,7 @@ class lb_keypress_up:
         asked2 = ite(-asked2 >= measured, -(measured - 1), asked2)
         final2 = snapped(asked2, "below", W.call_quiet(st, tw2, "selectable", {}), rows2, maxrow, maxrow - 1)
         stuck = both(topmost_is_focus, neg(ch.ok(UP, K + 1)))
+        st.ghost["moved_K"] = ite(either(keeps, both(leaves, topmost_is_focus), both(cursor_leaves, stuck)), 0, ite(leaves, K, K2))
         yield "cursor-would-leave-nothing-above-nothing-changed", implies(both(cursor_leaves, stuck), unchanged)
         yield "cursor-would-leave-topmost-item-takes-the-focus", implies(both(cursor_leaves, neg(stuck)),
                                                                          both(now[1] == ch.pos(UP, K2), eq(val(now[0]), tw2), stored_as(s, final2, rows2), lb_ok(s)))
@@ -589,13 +604,13 @@ class lb_keypress_down:
     }
 
     requires = staticmethod(_up_requires)
-    effects = staticmethod(lambda old, s, a, result: _updown_effects(old, s, a, result))
+    effects = staticmethod(lambda old, s, a, result: _updown_effects(DOWN)(old, s, a, result))
     ensures_callee = staticmethod(lambda old, s, a, result: _updown_ensures_callee(old, s, a, result))
     on_raise_callee = staticmethod(lambda old, s, a, exc: _updown_on_raise_callee(old, s, a, exc))
 
     def ensures(old, s, a, result):
         yield from lb_keypress_down.outcomes(old, s, a, result)
-        yield from _updown_summary(old, s, a, result)
+        yield from _updown_summary(old, s, a, result, DOWN, cur().ghost["moved_K"])
 
     @staticmethod
     def outcomes(old, s, a, result):
@@ -616,6 +631,7 @@ class lb_keypress_down:
             tw = widget_at(old._body, 0, p)
             rows = rows_of(tw, maxcol, True)
             final = snapped(vis.off + vis.frows + vis.B(i), "above", True, rows, maxrow, maxrow - 1)
+            st.ghost["moved_K"] = vis.mb(i)
             yield "nearest-listed-selectable-item-with-rows-takes-the-focus", both(V.opt_isnone(result), vis.cand(vis.below, i), implies(both(0 <= q, q < i), neg(vis.cand(vis.below, q))),
                                                                                    now[1] == p, eq(val(now[0]), w))
             yield "where-it-is-pulled-into-the-box", stored_as(s, final, rows)
@@ -630,8 +646,10 @@ class lb_keypress_down:
             K = vis.kl + m + 1
             ch.unfold(DOWN, K - 1)
             if not is_none(result):
+                st.ghost["moved_K"] = 0
                 yield "comes-back-only-at-the-bottom-of-the-list-nothing-changed", both(V.opt_eq(result, True), vis.tb == 0, neg(ch.ok(DOWN, K)), unchanged)
                 return
+            st.ghost["moved_K"] = K
             tw = ch.widget(DOWN, K)
             rows = rows_of(tw, maxcol, True)
             final = snapped(base, "above", True, rows, maxrow, maxrow - 1)
@@ -669,6 +687,7 @@ class lb_keypress_down:
         asked2 = ite(asked2 >= maxrow, maxrow - 1, asked2)
         final2 = snapped(asked2, "above", W.call_quiet(st, tw2, "selectable", {}), rows2, maxrow, maxrow - 1)
         stuck = both(bottommost_is_focus, neg(ch.ok(DOWN, K + 1)))
+        st.ghost["moved_K"] = ite(either(keeps, both(leaves, bottommost_is_focus), both(cursor_leaves, stuck)), 0, ite(leaves, K, K2))
         yield "cursor-would-leave-nothing-below-nothing-changed", implies(both(cursor_leaves, stuck), unchanged)
         yield "cursor-would-leave-bottommost-item-takes-the-focus", implies(both(cursor_leaves, neg(stuck)),
                                                                             both(now[1] == ch.pos(DOWN, K2), eq(val(now[0]), tw2), stored_as(s, final2, rows2), _handled_state(s, rows2, final2, maxrow)))
@@ -793,6 +812,7 @@ def _page_stub(name):
         modifies = ("offset_rows", "inset_fraction", "pref_col")
 
         def effects(old, s, a, result):
+            cur().ghost.setdefault("ran", []).append({"_keypress_page_up": "cursor page up", "_keypress_page_down": "cursor page down"}[name])
             PROTOCOLS["ListWalker"].bump(cur(), s._body)
 
     return k
@@ -806,6 +826,7 @@ def _max_callee_side(reverse, valign):
     def effects(old, s, a, result):
         st = cur()
         st.ghost["updown_before"] = (walker_focus(s), _has_positions(s), _first_position(s, reverse))
+        st.ghost.setdefault("ran", []).append("cursor max right" if reverse else "cursor max left")
         PROTOCOLS["ListWalker"].bump(st, s._body)
 
     def ensures_callee(old, s, a, result):
@@ -907,6 +928,8 @@ class lb_keypress:
         cmd = command_of(val(key2))
         yield "the-key-or-none", either(V.opt_isnone(result), V.opt_eq(result, key2))
         is_nav = either(*[cmd == c for c in NAV])
+        ran = st.ghost.get("ran", [])  # (ghost: the list procedures applied on this path, logged by the callee side of their contracts)
+        yield "each-list-command-goes-to-its-procedure-once-and-no-other-runs", both(len(ran) <= 1, *[eq(cmd == c, ran == [c]) for c in NAV])
         yield "a-key-bound-to-no-list-command-comes-back-nothing-changed", implies(neg(is_nav), both(V.opt_eq(result, key2), unchanged))
         paging = either(cmd == "cursor page up", cmd == "cursor page down")
         yield "an-unhandled-key-comes-back-nothing-changed", implies(both(neg(V.opt_isnone(result)), neg(paging)), unchanged)
@@ -914,6 +937,11 @@ class lb_keypress:
         no_rows = rows_of(val(now[0]), maxcol, True) == 0
         yield "after-a-handled-up-or-down-scroll-state-sane-focus-row-inside-the-box", implies(both(updown, V.opt_isnone(result)),
                                                                                               both(lb_ok(s), neg(mk_bool(now[0].isnone)), either(s.offset_rows < maxrow, same_scroll_state(s, old), no_rows)))
+        if "updown_K" in st.ghost:
+            # (the procedure that ran reports how far along the walker's chain, and in which direction, the focus went)
+            ch, _d, K = st.ghost["updown_K"]
+            for c, d in (("cursor up", UP), ("cursor down", DOWN)):
+                yield f"{c[7:]}-moves-the-focus-{c[7:]}-the-list-or-keeps-it", implies(cmd == c, both(K >= 0, ch.ok(d, K), now[1] == ch.pos(d, K)))
         home_end = either(cmd == "cursor max left", cmd == "cursor max right")
         yield "after-home-or-end-the-scroll-state-is-untouched", implies(home_end, same_scroll_state(s, old))
         vp = s.set_focus_valign_pending
